@@ -70,6 +70,7 @@ type mapSpec struct {
 	Series []int
 	Pct    bool
 	Mask   int
+	Limit0 bool `json:",omitempty"` // timer-histogram-limit=0: histogram-tagged timers report nothing at all
 }
 
 var subKeys = []string{"lower", "lower-pct", "upper", "upper-pct", "count", "count-pct", "count-per-second", "mean", "mean-pct", "median", "stddev", "sum", "sum-pct", "sum-squares", "sum-squares-pct"}
@@ -95,7 +96,7 @@ func flushed(ms mapSpec) *gostatsd.MetricMap {
 	if ms.Pct {
 		pcts = []float64{90, -50}
 	}
-	ag := statsd.NewMetricAggregator(pcts, 0, 0, 0, 0, sub, math.MaxUint32)
+	ag := statsd.VerifWiredAggregator(statsd.Server{PercentThreshold: pcts, ExpiryIntervalCounter: 0, ExpiryIntervalGauge: 0, ExpiryIntervalSet: 0, ExpiryIntervalTimer: 0, DisabledSubTypes: sub, HistogramLimit: map[bool]uint32{false: math.MaxUint32, true: 0}[ms.Limit0]})
 	mm := gostatsd.NewMetricMap(false)
 	for _, i := range ms.Series {
 		s := menu[i]
@@ -669,7 +670,39 @@ func checkTagsHost(kind string, s ser, e entry) string {
 	return ""
 }
 
-func specString(ms mapSpec) string { return fmt.Sprintf("%v/p%v/m%d", ms.Series, ms.Pct, ms.Mask) }
+func specString(ms mapSpec) string {
+	return fmt.Sprintf("%v/p%v/m%d/l%v", ms.Series, ms.Pct, ms.Mask, ms.Limit0)
+}
+
+// checkLimit0: with timer-histogram-limit=0 a histogram-tagged timer is reported by no backend (the statsd
+// relay, which forwards raw values instead of aggregates, excepted)
+func checkLimit0(ms mapSpec, kinds []string) {
+	mm := flushed(ms)
+	for _, kind := range kinds {
+		if strings.HasPrefix(kind, "statsdaemon") {
+			continue
+		}
+		c, _, problem := runBackend(kind, 0, ms, mm)
+		rp := map[string]any{"spec": ms, "kind": kind, "batch": 0}
+		if problem != "" {
+			res.Violate("run "+kind, fmt.Sprintf("backend %s map %s (%v): %s", kind, specString(ms), describe(ms), problem), rp)
+			continue
+		}
+		for _, i := range ms.Series {
+			s := menu[i]
+			if s.Type != "ms" || len(s.Tags) == 0 || !strings.HasPrefix(s.Tags[0], "gsd_histogram") {
+				continue
+			}
+			for _, e := range c.entries {
+				if strings.Contains(e.Name, s.Name) {
+					res.Violate("histogram-limit-0-reports "+kind, fmt.Sprintf("backend %s map %s (%v): with timer-histogram-limit=0 the histogram-tagged timer %s must report nothing, but the payload has %q", kind, specString(ms), describe(ms), s.Name, e.key()), rp)
+					break
+				}
+			}
+		}
+		nontrivial[kind+"limit0"+specString(ms)] = struct{}{}
+	}
+}
 
 var singleCache = map[string][]entry{}
 
@@ -737,7 +770,7 @@ func checkMap(ms mapSpec, kinds []string) {
 		if len(ms.Series) > 1 && !strings.HasPrefix(kind, "statsdaemon") {
 			union := map[string]int{}
 			for _, i := range ms.Series {
-				one := mapSpec{[]int{i}, ms.Pct, ms.Mask}
+				one := mapSpec{[]int{i}, ms.Pct, ms.Mask, false}
 				k := kind + specString(one)
 				es, ok := singleCache[k]
 				if !ok {
@@ -829,6 +862,15 @@ func describe(ms mapSpec) string {
 	return strings.Join(o, " ")
 }
 
+func hasHistogram(series []int) bool {
+	for _, i := range series {
+		if menu[i].Type == "ms" && len(menu[i].Tags) > 0 && strings.HasPrefix(menu[i].Tags[0], "gsd_histogram") {
+			return true
+		}
+	}
+	return false
+}
+
 func hasTimer(series []int) bool {
 	for _, i := range series {
 		if menu[i].Type == "ms" {
@@ -882,6 +924,77 @@ func checkPacking(pk packing) {
 	}
 }
 
+// ---- events through the statsd relay: what it writes must parse back, under gostatsd's own parser, to the
+// same event fields.
+
+func checkRelayEvents() {
+	titles := []string{"t", "a b|c", "é"}
+	texts := []string{"", "x", "l1\nl2", "\nlead", "a\nb\n", "p|q", "back\\slash"}
+	tagLists := []gostatsd.Tags{nil, {"t"}, {"k:v", "bare", "s:src"}}
+	var i int64
+	for _, kind := range []string{"statsdaemon-udp", "statsdaemon-tcp"} {
+		b, err := bk.New(kind, bk.Opts{})
+		if err != nil {
+			res.Violate("run "+kind, err.Error(), nil)
+			continue
+		}
+		for _, ti := range titles {
+			for _, tx := range texts {
+				for _, date := range []int64{0, 1700000000} {
+					for _, host := range []gostatsd.Source{"", "h"} {
+						for _, key := range []string{"", "agg"} {
+							for _, st := range []string{"", "src"} {
+								for _, pri := range []gostatsd.Priority{gostatsd.PriNormal, gostatsd.PriLow} {
+									for _, al := range []gostatsd.AlertType{gostatsd.AlertInfo, gostatsd.AlertWarning, gostatsd.AlertError, gostatsd.AlertSuccess} {
+										i++
+										if !vrt.Mine(i) {
+											continue
+										}
+										tags := tagLists[int(i)%len(tagLists)]
+										e := &gostatsd.Event{Title: ti, Text: tx, DateHappened: date, Source: host, AggregationKey: key, SourceTypeName: st, Priority: pri, AlertType: al, Tags: tags.Copy()}
+										relayEvent(kind, b, e)
+									}
+								}
+							}
+						}
+					}
+				}
+			}
+		}
+	}
+}
+
+func relayEvent(kind string, b *bk.Built, e *gostatsd.Event) {
+	res.Evaluations++
+	rp := map[string]any{"event": e, "kind": kind}
+	bad := func(msg string) {
+		res.Violate("relay-event "+kind, fmt.Sprintf("backend %s event %+v: %s", kind, *e, msg), rp)
+	}
+	b.Env.Net.Writes = nil
+	want := *e
+	want.Tags = e.Tags.Copy()
+	if err := b.Backend.SendEvent(context.Background(), e); err != nil {
+		bad("SendEvent failed: " + err.Error())
+		return
+	}
+	if len(b.Env.Net.Writes) != 1 {
+		bad(fmt.Sprintf("%d writes for one event", len(b.Env.Net.Writes)))
+		return
+	}
+	line := strings.TrimSuffix(string(b.Env.Net.Writes[0]), "\n")
+	m, got, err := lx.Run([]byte(line), "")
+	if err != nil || m != nil || got == nil {
+		bad(fmt.Sprintf("the relayed line %q is rejected by gostatsd's own parser: %v", line, err))
+		return
+	}
+	if got.Title != want.Title || got.Text != want.Text || got.DateHappened != want.DateHappened || got.Source != want.Source || got.AggregationKey != want.AggregationKey ||
+		got.SourceTypeName != want.SourceTypeName || got.Priority != want.Priority || got.AlertType != want.AlertType || fmt.Sprint([]string(got.Tags)) != fmt.Sprint([]string(want.Tags)) {
+		bad(fmt.Sprintf("the relayed line %q parses back to %+v", line, *got))
+		return
+	}
+	nontrivial["ev"+kind+line] = struct{}{}
+}
+
 func main() {
 	res = vrt.Init()
 	if *vrt.ReplayPath != "" {
@@ -890,9 +1003,16 @@ func main() {
 			Kind       string
 			Underscore bool
 			Packing    *packing
+			Event      *gostatsd.Event
 		}
 		vrt.LoadReplay(&rp)
-		if rp.Packing != nil {
+		if rp.Event != nil {
+			b, err := bk.New(rp.Kind, bk.Opts{})
+			if err != nil {
+				panic(err)
+			}
+			relayEvent(rp.Kind, b, rp.Event)
+		} else if rp.Packing != nil {
 			checkPacking(*rp.Packing)
 		} else if rp.Underscore {
 			menu = append(menu, ser{"c", "_x", []string{"k:v"}, "h", []float64{2}})
@@ -948,7 +1068,10 @@ func main() {
 				if !vrt.Mine(i) || vrt.Expired() {
 					continue
 				}
-				checkMap(mapSpec{sp, pct, m}, bk.Kinds)
+				checkMap(mapSpec{sp, pct, m, false}, bk.Kinds)
+				if m == 0 && len(sp) <= 2 && hasHistogram(sp) {
+					checkLimit0(mapSpec{sp, pct, 0, true}, bk.Kinds)
+				}
 			}
 		}
 	}
@@ -957,7 +1080,7 @@ func main() {
 	// as a Datadog special and rejects
 	if *vrt.Shard == 0 {
 		menu = append(menu, ser{"c", "_x", []string{"k:v"}, "h", []float64{2}})
-		ms := mapSpec{[]int{len(menu) - 1}, false, 0}
+		ms := mapSpec{[]int{len(menu) - 1}, false, 0, false}
 		mm := flushed(ms)
 		for _, kind := range []string{"statsdaemon-udp", "statsdaemon-tcp"} {
 			c, _, problem := runBackend(kind, 0, ms, mm)
@@ -971,6 +1094,7 @@ func main() {
 		}
 		menu = menu[:len(menu)-1]
 	}
+	checkRelayEvents()
 	// datagram packing of the relay at every fill level around the limit
 	for _, tagged := range []bool{false, true} {
 		for k := 1; k <= 24; k++ {
@@ -985,7 +1109,7 @@ func main() {
 	if vrt.Expired() {
 		res.Exhaustive = false
 	}
-	res.Sample(map[string]any{"map": describe(mapSpec{[]int{1, 8, 11}, true, 0}), "backends": bk.Kinds, "batch_sizes": []int{0, 1, 2, 3, 4, 5, 6}})
+	res.Sample(map[string]any{"map": describe(mapSpec{[]int{1, 8, 11}, true, 0, false}), "backends": bk.Kinds, "batch_sizes": []int{0, 1, 2, 3, 4, 5, 6}})
 	res.SetDistinctKeys(nontrivial)
 	res.States = int64(len(nontrivial))
 	res.Transitions = res.Evaluations
